@@ -263,4 +263,346 @@ theorem calls_first_error (p : Params) (pre : List (Method × List UInt8)) (m : 
 
 end DecProof
 
+/-! ### Encoder -/
+
+namespace EncProof
+
+theorem runQ_eq_runE (q : Pipe) (es : List Emit) : Enc.runQ q es = runE q es := rfl
+
+theorem count_hole_total (q : Pipe) (id : Nat) :
+    q.total.cells.count (Cell.hole id) = q.cells.count (Cell.hole id) := by
+  simp [Pipe.total, List.count_append, count_hole_map_byte]
+
+theorem run_total (q : Pipe) (ops : List Op) : (q.run ops).total = q.total.run ops := by
+  induction ops generalizing q with
+  | nil => rfl
+  | cons o t ih =>
+    simp only [Pipe.run, List.foldl_cons] at ih ⊢
+    rw [ih, apply_total]
+
+theorem runE_total (q : Pipe) (es : List Emit) : (runE q es).total = runE q.total es := run_total q _
+
+/-- Append-only emits do not touch the placeholders. -/
+theorem count_hole_runE_appends (q : Pipe) (es : List Emit) (h : ∀ e ∈ es, Op.isAppend e.op = true) (id : Nat) :
+    (runE q es).cells.count (Cell.hole id) = q.cells.count (Cell.hole id) := by
+  have hall : (es.map Emit.op).all Op.isAppend = true := by
+    simp only [List.all_map, List.all_eq_true]
+    exact h
+  unfold runE
+  rw [run_appendOnly q _ hall]
+  simp [List.count_append, count_hole_map_byte]
+
+theorem encodeHeaderP_ok (p : Params) (s : EncState) (q : Pipe) (h : HeaderAsserts p s s.cur)
+    (hc : q.cells.count (Cell.hole s.backref) = s.brLen) :
+    Enc.encodeHeaderP p s q = .ok (Enc.closeHeader p s) := by
+  obtain ⟨h1, h2, h3, h4, h5, h6⟩ := h
+  have c1 : decide (s.cur < p.radix * p.radix) = true := by simpa using h1
+  have c2 : decide (1 ≤ s.brLen ∧ s.brLen ≤ 2) = true := by simp; omega
+  have c4 : decide (q.cells.count (Cell.hole s.backref) = s.brLen) = true := by simpa using hc
+  simp only [Enc.encodeHeaderP, check_of c1, check_of c2, check_of c4, PRes.ok_bind, PRes.pure_eq,
+    Enc.closeHeader, header]
+  have hb : s.brLen = 1 ∨ s.brLen = 2 := by omega
+  rcases hb with hb | hb
+  · have hz : s.cur / p.radix = 0 := h4 hb
+    simp [hb, index, hz, check]
+  · simp [hb, index, check]
+
+theorem flushIfMidP_ok (s : EncState)
+    (h : s.mid = true → s.cur + 1 < USIZE ∧ s.cur + 1 < s.maxChunk) :
+    Enc.flushIfMidP s = .ok (flushS s, flushE s) := by
+  unfold Enc.flushIfMidP flushS flushE
+  cases hm : s.mid with
+  | false => simp
+  | true =>
+    obtain ⟨a, b⟩ := h hm
+    have c1 : decide (s.cur + 1 < USIZE) = true := by simpa using a
+    have c2 : decide (s.cur + 1 ≤ s.maxChunk) = true := by simp; omega
+    have c3 : decide (s.cur + 1 < s.maxChunk) = true := by simpa using b
+    simp [Enc.flushP, check_of c1, check_of c2, check_of c3]
+
+theorem flushAtEndP_ok (s : EncState)
+    (h : s.mid = true → s.cur + 1 < USIZE ∧ s.cur + 1 ≤ s.maxChunk) :
+    Enc.flushAtEndP s = .ok (flushS s, flushE s) := by
+  unfold Enc.flushAtEndP flushS flushE
+  cases hm : s.mid with
+  | false => simp
+  | true =>
+    obtain ⟨a, b⟩ := h hm
+    have c1 : decide (s.cur + 1 < USIZE) = true := by simpa using a
+    have c2 : decide (s.cur + 1 ≤ s.maxChunk) = true := by simpa using b
+    simp [Enc.flushP, check_of c1, check_of c2]
+
+theorem writeP_ok (s : EncState) (m : Method) (outer : Nat) (bs : List UInt8) (h1 : bs.length ≤ outer)
+    (h2 : s.cur + bs.length < USIZE) (h3 : s.cur + bs.length ≤ s.maxChunk) :
+    Enc.writeP s m outer bs = .ok ({ s with cur := s.cur + bs.length }, writeE m bs.length bs) := by
+  have c1 : decide (bs.length ≤ outer) = true := by simpa using h1
+  have c2 : decide (s.cur + bs.length < USIZE) = true := by simpa using h2
+  have c3 : decide (s.cur + bs.length ≤ s.maxChunk) = true := by simpa using h3
+  unfold Enc.writeP writeE
+  simp only [check_of c1, PRes.ok_bind]
+  cases bs with
+  | nil => simp
+  | cons b t =>
+    simp only [List.isEmpty_cons, Bool.false_eq_true, if_false, check_of c2, check_of c3, PRes.ok_bind,
+      PRes.pure_eq]
+    simp
+
+theorem closeP_ok (p : Params) (s : EncState) (nid : Nat) (q : Pipe) (pre : List Emit) (c : Nat)
+    (h : Enc.encodeHeaderP p s (Enc.runQ q pre) = .ok (Enc.closeHeader p s)) :
+    Enc.closeP p s nid q pre c = .ok ⟨subState p nid, c, pre ++ closeE p s, nid + 1⟩ := by
+  simp [Enc.closeP, h, Enc.newSubsequent, subState, closeE]
+
+theorem headerAsserts_congr (p : Params) {s s' : EncState} {n : Nat} (h : HeaderAsserts p s n)
+    (hb : s'.brLen = s.brLen) : HeaderAsserts p s' n := by
+  unfold HeaderAsserts at h ⊢
+  rw [hb]; exact h
+
+theorem valid_max_usize (p : Params) (hp : p.Valid) : p.maxInit + 2 < USIZE ∧ p.maxSub + 2 < USIZE := by
+  have := DecProof.valid_maxSub_lt p hp
+  obtain ⟨_, h2, _, _, _, h6⟩ := hp
+  unfold USIZE
+  omega
+
+/-- **One `consume_once` never panics**: in every state the encoder can be in (`Reachable`,
+whatever has been drained from the output: `q.total` is the pipe with the drained bytes put
+back), on every non-empty input, the panic-aware step is the panic-free step. -/
+theorem consumeOnceP_eq (p : Params) (hp : p.Valid) {s : EncState} {nid : Nat} {q : Pipe}
+    (h : Reachable p s nid q.total) (m : Method) (input : List UInt8) (hne : input ≠ []) :
+    Enc.consumeOnceP p s nid m q input = .ok (Enc.consumeOnce p s nid m input) := by
+  obtain ⟨a1, a2, a3, a4, a5, a6⟩ := once_asserts p hp h m input hne
+  obtain ⟨_, _, _, _, _, _, _, _, hmaxc⟩ := reachable_shape p hp h
+  obtain ⟨hu1, hu2⟩ := valid_max_usize p hp
+  have hmu : s.maxChunk + 2 < USIZE := by rcases hmaxc with e | e <;> rw [e] <;> assumption
+  have hfbr : (flushS s).brLen = s.brLen ∧ (flushS s).backref = s.backref := by
+    unfold flushS; split <;> exact ⟨rfl, rfl⟩
+  have hfmax : (flushS s).maxChunk = s.maxChunk := by unfold flushS; split <;> rfl
+  have hfmid : (flushS s).mid = false := by
+    unfold flushS; split
+    · rfl
+    · rename_i hm; simpa using hm
+  have hfcur : (flushS s).cur = s.cur + (if s.mid then 1 else 0) := by
+    unfold flushS; split <;> simp_all
+  obtain ⟨b, t, rfl⟩ : ∃ b t, input = b :: t := by
+    cases input with
+    | nil => exact absurd rfl hne
+    | cons b t => exact ⟨b, t, rfl⟩
+  have c1 : decide (s.cur + (if s.mid then 1 else 0) < USIZE) = true := by
+    simp only [decide_eq_true_eq]; split <;> omega
+  have c2 : decide (s.cur + (if s.mid then 1 else 0) < s.maxChunk) = true := by simpa using a1
+  have hq : q.cells.count (Cell.hole s.backref) = s.brLen := by
+    obtain ⟨done, body, hqt, _⟩ := reachable_shape p hp h
+    rw [← count_hole_total, hqt]; exact count_hole_pipeOf _ _ _ _
+  have hcount : ∀ pre : List Emit, (∀ e ∈ pre, Op.isAppend e.op = true) →
+      (Enc.runQ q pre).cells.count (Cell.hole s.backref) = s.brLen := by
+    intro pre hpre
+    rw [runQ_eq_runE, count_hole_runE_appends q pre hpre, hq]
+  unfold Enc.consumeOnceP
+  simp only [List.isEmpty_cons, Bool.not_false, check_true, check_of c1, check_of c2, PRes.ok_bind,
+    index_cons_zero]
+  by_cases hA : s.mid ∧ (b :: t).head? = some FD
+  · have hA' : s.mid = true ∧ b = FD := by simpa using hA
+    rw [if_pos hA', consumeOnce_mid p s nid m _ hA]
+    obtain ⟨_, hn2, _⟩ := a3 s.cur (by simp [closeCur, hA])
+    exact closeP_ok p s nid q [] 1 (encodeHeaderP_ok p s _ hn2 (hcount [] (by simp)))
+  · have hA' : ¬ (s.mid = true ∧ b = FD) := by simpa using hA
+    obtain ⟨b1, b2, b3, b4⟩ := a2 hA
+    rw [if_neg hA']
+    have c3 : decide (s.cur < s.maxChunk) = true := by simpa using b1
+    have hflush := flushIfMidP_ok s (by
+      intro hm; rw [hfcur, hm] at b3; simp only [if_true] at b3; constructor <;> omega)
+    simp only [check_of c3, PRes.ok_bind, hflush]
+    have c4 : decide ((flushS s).cur ≤ (flushS s).maxChunk) = true := by rw [hfmax]; simpa using b2
+    simp only [check_of c4, PRes.ok_bind]
+    rw [← hfmax] at b4
+    have c5 : (!((b :: t).take ((flushS s).maxChunk - (flushS s).cur)).isEmpty) = true := by
+      cases hw : (b :: t).take ((flushS s).maxChunk - (flushS s).cur) with
+      | nil => exact absurd hw b4
+      | cons x y => rfl
+    simp only [check_of c5, PRes.ok_bind]
+    have happ : ∀ n bs, ∀ e ∈ flushE s ++ writeE m n bs, Op.isAppend e.op = true := by
+      intro n bs e he
+      rcases List.mem_append.mp he with he | he
+      · exact flushE_isAppend s e he
+      · exact writeE_isAppend m n bs e he
+    cases hfs : findStuff ((b :: t).take ((flushS s).maxChunk - (flushS s).cur)) with
+    | some i =>
+      have hi := (Spec.findStuff_some hfs).1
+      have hwl : ((b :: t).take ((flushS s).maxChunk - (flushS s).cur)).length ≤ (b :: t).length := by
+        rw [List.length_take]; omega
+      have hwl2 : ((b :: t).take ((flushS s).maxChunk - (flushS s).cur)).length
+          ≤ (flushS s).maxChunk - (flushS s).cur := by
+        rw [List.length_take]; omega
+      obtain ⟨hn1, hn2, _⟩ := a3 ((flushS s).cur + i) (by simp only [closeCur, if_neg hA, hfs])
+      have hlen : (((b :: t).take ((flushS s).maxChunk - (flushS s).cur)).take i).length = i := by
+        rw [List.length_take]; omega
+      have c6 : decide (i + 2 < USIZE) = true := by
+        simp only [decide_eq_true_eq]; rw [hfmax] at hwl2; omega
+      have hw := writeP_ok (flushS s) m (b :: t).length
+        (((b :: t).take ((flushS s).maxChunk - (flushS s).cur)).take i)
+        (by rw [hlen]; omega) (by rw [hlen]; omega) (by rw [hlen, hfmax]; omega)
+      rw [hlen] at hw
+      simp only [check_of c6, PRes.ok_bind, hw]
+      rw [consumeOnce_stuff p s nid m _ hA hfs]
+      have hcl := closeP_ok p { flushS s with cur := (flushS s).cur + i } nid q
+        (flushE s ++ writeE m i (((b :: t).take ((flushS s).maxChunk - (flushS s).cur)).take i)) (i + 2)
+        (encodeHeaderP_ok p _ _ (headerAsserts_congr p hn2 hfbr.1)
+          (by simp only; rw [hfbr.2, hfbr.1]; exact hcount _ (happ _ _)))
+      rw [hcl]
+    | none =>
+      by_cases hfull : ((b :: t).take ((flushS s).maxChunk - (flushS s).cur)).length
+          = (flushS s).maxChunk - (flushS s).cur
+      · obtain ⟨hn1, hn2, _⟩ := a3 ((flushS s).cur + ((flushS s).maxChunk - (flushS s).cur))
+          (by simp only [closeCur, if_neg hA, hfs, if_pos hfull])
+        have hw := writeP_ok (flushS s) m (b :: t).length
+          ((b :: t).take ((flushS s).maxChunk - (flushS s).cur))
+          (by rw [List.length_take]; omega) (by rw [hfull]; rw [hfmax] at hn1 ⊢; omega)
+          (by rw [hfull, hfmax]; rw [hfmax] at hn1; omega)
+        rw [hfull] at hw
+        simp only [if_pos hfull, PRes.ok_bind, hw]
+        rw [consumeOnce_full p s nid m _ hA hfs hfull]
+        have hcl := closeP_ok p
+          { flushS s with cur := (flushS s).cur + ((flushS s).maxChunk - (flushS s).cur) } nid q
+          (flushE s ++ writeE m ((flushS s).maxChunk - (flushS s).cur)
+            ((b :: t).take ((flushS s).maxChunk - (flushS s).cur)))
+          ((flushS s).maxChunk - (flushS s).cur)
+          (encodeHeaderP_ok p _ _ (headerAsserts_congr p hn2 hfbr.1)
+            (by simp only; rw [hfbr.2, hfbr.1]; exact hcount _ (happ _ _)))
+        rw [hcl]
+      · rw [consumeOnce_part p s nid m _ hA hfs hfull] at a4 ⊢
+        simp only [if_neg hfull] at a4 ⊢
+        generalize hwd : (b :: t).take ((flushS s).maxChunk - (flushS s).cur) = w at *
+        have hwl : w.length ≤ (b :: t).length := by
+          rw [← hwd, List.length_take]; omega
+        have hwpos : 0 < w.length := List.length_pos_iff.mpr b4
+        obtain ⟨x, hx⟩ : ∃ x, w.getLast? = some x := by
+          cases hl : w.getLast? with
+          | none => exact absurd (List.getLast?_eq_none_iff.mp hl) b4
+          | some x => exact ⟨x, rfl⟩
+        have hidx : index w (w.length - 1) Src.encoder 211 = .ok x := by
+          unfold index
+          rw [← List.getLast?_eq_getElem?, hx]
+        have c6 : decide (1 ≤ w.length) = true := by simp only [decide_eq_true_eq]; omega
+        simp only [check_of c6, PRes.ok_bind, hidx, hx, Option.some.injEq] at a4 ⊢
+        by_cases hxe : x = FE
+        · subst hxe
+          simp only [beq_self_eq_true, if_true, decide_true] at a4 ⊢
+          have c7 : decide (True → 1 ≤ w.length) = true := by simp only [decide_eq_true_eq]; omega
+          have hlen : (w.take (w.length - 1)).length = w.length - 1 := by rw [List.length_take]; omega
+          have hw := writeP_ok
+            { maxChunk := (flushS s).maxChunk, cur := (flushS s).cur, mid := true,
+              backref := (flushS s).backref, brLen := (flushS s).brLen } m (b :: t).length
+            (w.take (w.length - 1)) (by rw [hlen]; omega) (by rw [hlen]; simp only; rw [hfmax] at a4; omega)
+            (by rw [hlen]; exact a4.1)
+          rw [hlen] at hw
+          have c8 : decide ((flushS s).cur + (w.length - 1) + 1 < USIZE) = true := by
+            simp only [decide_eq_true_eq]; rw [hfmax] at a4; omega
+          have c9 : decide ((flushS s).cur + (w.length - 1) + 1 < (flushS s).maxChunk) = true := by
+            simpa using a4.2
+          simp only [check_of c7, PRes.ok_bind, hw, if_true, check_of c8, check_of c9, PRes.pure_eq]
+        · have hb : (x == FE) = false := by simpa using hxe
+          simp only [hb, Bool.false_eq_true, if_false, decide_false, hxe] at a4 ⊢
+          have c7 : decide (False → 1 ≤ w.length) = true := by simp
+          have hlen : (w.take w.length).length = w.length := by rw [List.length_take]; omega
+          have hw := writeP_ok
+            { maxChunk := (flushS s).maxChunk, cur := (flushS s).cur, mid := false,
+              backref := (flushS s).backref, brLen := (flushS s).brLen } m (b :: t).length
+            (w.take w.length) (by rw [hlen]; omega) (by rw [hlen]; simp only; rw [hfmax] at a4; omega)
+            (by rw [hlen]; exact a4.1)
+          rw [hlen] at hw
+          have c8 : decide ((flushS s).cur + w.length + 0 < USIZE) = true := by
+            simp only [decide_eq_true_eq]; rw [hfmax] at a4; omega
+          have c9 : decide ((flushS s).cur + w.length + 0 < (flushS s).maxChunk) = true := by
+            simpa using a4.2
+          simp only [check_of c7, PRes.ok_bind, hw, Bool.false_eq_true, if_false, check_of c8, check_of c9,
+            PRes.pure_eq]
+
+/-- **A whole `encode_borrow` / `encode_copy` call never panics** (incl. the loop's own two
+assertions), and the model's fuel is enough. -/
+theorem feedP_eq (p : Params) (hp : p.Valid) (m : Method) (fuel : Nat) (s : EncState) (nid : Nat) (q : Pipe)
+    (input : List UInt8) (h : Reachable p s nid q.total) (hf : input.length ≤ fuel) :
+    Enc.feedP p fuel s nid m q input = .ok (Enc.feed p fuel s nid m input) := by
+  induction fuel generalizing s nid q input with
+  | zero =>
+    have : input = [] := List.eq_nil_of_length_eq_zero (by omega)
+    subst this
+    simp [Enc.feedP, feed_zero]
+  | succ fuel ih =>
+    by_cases hne : input = []
+    · subst hne; simp [Enc.feedP, feed_nil]
+    · have hemp : input.isEmpty = false := by
+        cases input with
+        | nil => exact absurd rfl hne
+        | cons b t => rfl
+      obtain ⟨_, _, _, _, a5, a6⟩ := once_asserts p hp h m input hne
+      have hreach := Reachable.step m input h hne
+      rw [← runE_total, ← runQ_eq_runE] at hreach
+      have c1 : decide ((Enc.consumeOnce p s nid m input).consumed ≤ input.length) = true := by simpa using a5
+      have c2 : (decide ((Enc.consumeOnce p s nid m input).consumed > 0) ||
+          (!(Enc.consumeOnce p s nid m input).st.mid && s.mid)) = true := by
+        simp only [Bool.or_eq_true, decide_eq_true_eq]; left; exact a6
+      have hrec := ih _ _ _ (input.drop (Enc.consumeOnce p s nid m input).consumed) hreach
+        (by rw [List.length_drop]; omega)
+      rw [feed_succ p fuel s nid m input hne]
+      simp only [Enc.feedP, hemp, Bool.false_eq_true, if_false, consumeOnceP_eq p hp h m input hne,
+        PRes.ok_bind, check_of c1, check_of c2, hrec, PRes.pure_eq]
+
+theorem feedAllP_eq (p : Params) (hp : p.Valid) (m : Method) (s : EncState) (nid : Nat) (q : Pipe)
+    (input : List UInt8) (h : Reachable p s nid q.total) :
+    Enc.feedAllP p s nid m q input = .ok (Enc.feedAll p s nid m input) :=
+  feedP_eq p hp m _ s nid q input h (by omega)
+
+/-- **`terminate` never panics.** -/
+theorem finishP_eq (p : Params) (hp : p.Valid) {s : EncState} {nid : Nat} {q : Pipe}
+    (h : Reachable p s nid q.total) : Enc.finishP p s q = .ok (Enc.finish p s) := by
+  obtain ⟨f1, f2, f3, f4⟩ := finish_asserts p hp h
+  obtain ⟨_, _, _, _, _, _, _, _, hmaxc⟩ := reachable_shape p hp h
+  obtain ⟨hu1, hu2⟩ := valid_max_usize p hp
+  have hmu : s.maxChunk + 2 < USIZE := by rcases hmaxc with e | e <;> rw [e] <;> assumption
+  have hfbr : (flushS s).brLen = s.brLen ∧ (flushS s).backref = s.backref := by
+    unfold flushS; split <;> exact ⟨rfl, rfl⟩
+  have hfmax : (flushS s).maxChunk = s.maxChunk := by unfold flushS; split <;> rfl
+  have hfcur : (flushS s).cur = s.cur + (if s.mid then 1 else 0) := by
+    unfold flushS; split <;> simp_all
+  have hflush := flushAtEndP_ok s (by
+    intro hm; rw [hfcur, hm] at f1; simp only [if_true] at f1; constructor <;> omega)
+  have c1 : decide ((flushS s).cur < (flushS s).maxChunk) = true := by rw [hfmax]; simpa using f2
+  have hcnt : (Enc.runQ q (flushE s)).cells.count (Cell.hole (flushS s).backref) = (flushS s).brLen := by
+    rw [hfbr.1, hfbr.2, runQ_eq_runE, count_hole_runE_appends q _ (flushE_isAppend s), ← count_hole_total]
+    exact f4
+  rw [finish_eq]
+  simp only [Enc.finishP, hflush, PRes.ok_bind, check_of c1,
+    encodeHeaderP_ok p (flushS s) _ (headerAsserts_congr p f3 hfbr.1) hcnt, PRes.pure_eq]
+
+theorem total_of_consumed_nil (q : Pipe) (h : q.consumed = []) : q.total = q := by
+  cases q; simp_all [Pipe.total]
+
+theorem runE_empty_total (acc : List Emit) : (runE Pipe.empty acc).total = runE Pipe.empty acc := by
+  rw [runE_total, total_empty]
+
+theorem goP_eq (p : Params) (hp : p.Valid) (pieces : List (Method × List UInt8)) (s : EncState) (nid : Nat)
+    (acc : List Emit) (h : Reachable p s nid (runE Pipe.empty acc)) :
+    Enc.runPiecesP.go p pieces s nid acc = .ok (Enc.runPieces.go p pieces s nid acc) := by
+  induction pieces generalizing s nid acc with
+  | nil =>
+    have h' : Reachable p s nid (Enc.runQ Pipe.empty acc).total := by
+      rw [runQ_eq_runE, runE_empty_total]; exact h
+    simp only [Enc.runPiecesP.go, Enc.runPieces.go, finishP_eq p hp h', PRes.ok_bind, PRes.pure_eq]
+  | cons md rest ih =>
+    obtain ⟨m, d⟩ := md
+    have h' : Reachable p s nid (Enc.runQ Pipe.empty acc).total := by
+      rw [runQ_eq_runE, runE_empty_total]; exact h
+    have hnext := feed_reachable p m (2 * d.length + 2) s nid _ d h
+    rw [← runE_append] at hnext
+    simp only [Enc.runPiecesP.go, Enc.runPieces.go, feedAllP_eq p hp m s nid _ d h', PRes.ok_bind]
+    exact ih _ _ _ hnext
+
+/-- **A whole encoder run never panics**: `EncoderState::new` on an empty iovec, any pieces by
+any methods, `terminate`. -/
+theorem runPiecesP_eq (p : Params) (hp : p.Valid) (pieces : List (Method × List UInt8)) :
+    Enc.runPiecesP p pieces = .ok (Enc.runPieces p pieces) := by
+  unfold Enc.runPiecesP Enc.runPieces
+  exact goP_eq p hp pieces _ _ _ Reachable.init
+
+end EncProof
+
 end Woodpile.Hcobs
